@@ -535,7 +535,15 @@ func (p *Printer) newlines(pos Pos) {
 	p.indent()
 }
 
-func (p *Printer) rightParen(pos Pos) {
+func (p *Printer) rightParen(open, pos Pos) {
+	for _, r := range p.pendingHdocs {
+		if r.OpPos.After(open) {
+			// The body of a heredoc which began inside the parentheses
+			// must be written before they close, even if newlines are
+			// otherwise being avoided.
+			p.mustNewline = true
+		}
+	}
 	if len(p.pendingHdocs) > 0 || !p.minify {
 		p.newlines(pos)
 	}
@@ -553,7 +561,7 @@ func (p *Printer) closingParen(stmts []*Stmt, last []Comment, openPos, closePos 
 		p.wantSpace = spaceRequired
 	}
 	p.spacePad(closePos)
-	p.rightParen(closePos)
+	p.rightParen(openPos, closePos)
 }
 
 func (p *Printer) semiRsrv(s string, pos Pos) {
@@ -719,7 +727,7 @@ func (p *Printer) wordPart(wp, next WordPart) {
 		}
 		p.w.WriteString(wp.Op.String())
 		p.nestedStmts(wp.Stmts, wp.Last, wp.Rparen)
-		p.rightParen(wp.Rparen)
+		p.rightParen(wp.OpPos, wp.Rparen)
 	}
 }
 
@@ -1564,7 +1572,7 @@ func (p *Printer) assigns(assigns []*Assign) {
 			p.wantSpace = spaceNotRequired
 			p.w.WriteByte('(')
 			p.elemJoin(a.Array.Elems, a.Array.Last)
-			p.rightParen(a.Array.Rparen)
+			p.rightParen(a.Array.Lparen, a.Array.Rparen)
 		}
 		p.wantSpace = spaceRequired
 	}
